@@ -58,7 +58,7 @@ SEPS = ["/", "/", "/", ".", "|", "\\"]
 GENERAL_NAMES = ["a", "b", "c", "ab", "ba", "a b", "a.b", "b.", "0", "1", "10", 'x"y', "(", ")", "[z]", "=", ":", ",",
                  "a:b", "(a,b)", "é", "名", "a-b", "A", "_u", " a", "a ", "a|b", "a\\b", "a/b", "name"]
 NEWICK_NAMES = ["a", "b", "ab", "a b", "a.b", "0", "1", "10", "007", 'x"y', "(", ")", "[", "]", "=", ":", ",", "a:b",
-                "(a,b)", "[k=v]", "a=b", ")(", "::", " a", "a ", "node0", "&&NHX:", "B", "C d"]
+                "(a,b)", "[k=v]", "a=b", ")(", "::", " a", "a ", "node0", "&&NHX:", "B", "C d", " (a", "b: ", " , ", "a\tb", "x[ "]
 SIMPLE_NAMES = ["a", "b", "c", "d", "e", "f", "g", "h"]
 PRINT_NAMES = ["a", "b", "c", "ab", "a b", "a.b", "0", "10", "x(y", "a:b", "[z]", "A", "q,r", "a=b", "b c d"]
 KEYS = ["A", "B", "K1", "C c", "Z.z", "_h"]
@@ -764,7 +764,23 @@ def shrink(case):
         yield mk(dict(d, spec=strip(spec)), case.tags)
 
 
-NOT_READY = True
-LEVEL_TEXT = ""
-LEVEL_NOTE = ""
-TECHNIQUE = ""
+NOT_READY = False
+LEVEL_TEXT = ("Proof. Lean 4 theorems (C06.*) about hand-written models of the exporters and constructors, for ALL trees, start "
+              "nodes and option values: rows_complete / dict_complete / nested_complete (the accumulator-style recursive append of "
+              "tree_to_dataframe, tree_to_polars, tree_to_dict emits exactly one record - path, name, parent name, requested "
+              "attributes - per node admitted by max_depth / skip_depth / leaf_only, in pre-order; the nested dict mirrors the tree "
+              "cut at max_depth; distinct nodes get distinct paths); dict_roundtrip, nested_roundtrip, rows_roundtrip(+_attrs) "
+              "(constructor(full export t) = t in names, shape, sibling order and public attributes, for non-empty, sibling-unique, "
+              "separator-free names; a DataFrame drops null attributes); newick_stack_invariant and newick_roundtrip (the parser "
+              "state machine reads tree_to_newick(t) back to t in names, shape and order for all names without ', names containing "
+              "any of the other special characters being quoted; side conditions on the 8 NewickCharacter constants are discharged "
+              "by `decide` on a table regenerated from constants.py on every run). The models are tied to /repo on every run by "
+              "differential testing of the real exporters/constructors (pandas and polars through the real libraries) against the "
+              "compiled model, incl. an exhaustive malformed-Newick stream; a model-free oracle re-reads the property on the real "
+              "objects. PARTIAL: the Newick theorem covers names (default writer options); length/attribute options of the Newick "
+              "writer/parser and the printed-tree round trip (owned by C18) rest on the tie.")
+LEVEL_NOTE = ("Trusted: Lean kernel, axioms <= {propext, Classical.choice, Quot.sound} (audited each run), the hand-written models' "
+              "correspondence to export.py / construct.py as established by the tie (not proved), harness/tables.py, CPython, pandas, "
+              "polars. A DataFrame is modelled as a list of records plus column normalisation; attribute values are null|int|str; one-"
+              "character separators; exceptions are 'rejected'.")
+TECHNIQUE = "Lean 4 proof (structural induction; parser stack invariant; generated-table side conditions by decide) + correspondence check against the real exporters/constructors"
